@@ -6,6 +6,7 @@ CONSTANTS
   Consumers = {"c1", "c2"}
   NOffer = 2
   NTake = 2
+  Kinds = {"take", "poll"}
   WithClose = FALSE
   GuardedClose = TRUE
 INVARIANTS Inv_NoPanic Inv_Bound Inv_Conservation Inv_NoDup Inv_ProducerOrder Inv_ConsumerSeesProducerOrder
